@@ -5,7 +5,8 @@ import dm14h, scen
 
 FILES = ['theories/Base.v', 'theories/gen/Dm14Gen.v', 'theories/Dm14Model.v', 'proofs/Dm14Proofs.v', 'theories/Items.v',
          'theories/Dm14Srv.v', 'theories/Dm14Replay.v', 'proofs/Dm14SrvProofs.v',
-         'theories/Dm14Cli.v', 'theories/Dm14CliReplay.v', 'proofs/Dm14CliProofs.v', 'proofs/Dm14SrvPhases.v']
+         'theories/Dm14Cli.v', 'theories/Dm14CliReplay.v', 'proofs/Dm14CliProofs.v', 'proofs/Dm14SrvPhases.v',
+         'theories/Dm14Net.v', 'proofs/Dm14NetProofs.v']
 runner = dm14h.runner
 ITEMS = ['item_dm14_payload', 'item_dm14_fields', 'item_dm15', 'item_dm15_fields', 'item_dm14_v2b', 'item_dm14_b2v', 'item_dm16']
 
@@ -109,8 +110,8 @@ def run(out, tier, rng, work):
     import items, scen, sprop
     out.rule = ('real client facade against real server facade on two real stacks: object count x size = 1..255 bytes (single-frame DM16 up to 7, RTS/CTS above), sizes 1/2/4/8, signed/unsigned, raw/converted, 32-bit pointers, direct/spatial, seed/key on/off with boundary seeds, 1..4 transactions back to back on the same or different objects, latencies (0, 5 ms]; oracle: read returns exactly the served bytes/values, write hands exactly the written bytes, the application is told command/address/pointer type/count/requester, all idle afterwards; item-level correspondence of conversion and layout functions; non-trivial = the client finished at least one operation'
                 ' 40 % of the multi-operation histories back to back (gap 0) under the pre-emptive wake schedule.')
-    out.assumptions = ['A1-A6 of DESIGN.md section 3', 'the serving side (DM14Server + serving half of MemoryAccess + the CA subscriber list) is modelled as a state machine (theories/Dm14Srv.v) and tied to the code by operation-sequence correspondence; the client (Dm14Query) and the transport under ca.send_pgn are not: transactions end to end are run on the real code (testing)']
-    out.extra['partial'] = ['the client side (Dm14Query) is modelled at the data level only; the end-to-end transaction (both sides idle afterwards, the application told command/address/count) is checked on the real code by the oracle; server side: T17.4/T17.5 proved on the state machine']
+    out.assumptions = ['A1-A6 of DESIGN.md section 3', 'the serving side (DM14Server + serving half of MemoryAccess + the CA subscriber list) is modelled as a state machine (theories/Dm14Srv.v) and tied to the code by operation-sequence correspondence; the requesting side likewise (theories/Dm14Cli.v); their composition (theories/Dm14Net.v) is compared with two real facades on two real stacks; the transport under ca.send_pgn is not part of these models']
+    out.extra['partial'] = ['end-to-end theorems (C17_read_end_to_end_exact, C17_write_end_to_end_exact_*) quantify over every data content and object size/signedness for single-frame transactions (1..7 bytes) under six concrete address/pointer/seed setups; multi-packet transactions (8..255 bytes, via the transport) and arbitrary addresses are checked on the real code by the oracle']
     C.std_proof_stage(out, 'C17', FILES)
     total, mism, errors = items.run_items(ITEMS, rng, 300 if tier == 'quick' else 3000, work, C)
     out.traces_validated = total
@@ -123,11 +124,24 @@ def run(out, tier, rng, work):
     dm14cli.stage(out, tier, rng, work, C)
     worst = {}
     runs = [(nm, sc) for nm, sc in sprop.load_corpus('C17')] + [('gen-%d' % k, gen(rng, k)) for k in range(120 if tier == 'quick' else 2500)]
+    kept = []
     for nm, sc in runs:
         res = runner(sc)
+        kept.append((sc, res))
         out.add_case(scen.sc_hash(sc), len(res.results) > 0, sample=dict(ops=[{a: b for a, b in o.items() if a not in ('server_data', 'values')} for o in sc['ops']][:3], results=[r[:2] for r in res.results][:3]) if len(out.samples) < 3 else None)
         for x in oracle(sc, res):
             if x['kind'] not in worst or len(json.dumps(sc)) < len(json.dumps(worst[x['kind']][1])):
                 worst[x['kind']] = (x, sc)
+    # the composed model of theorems C17_read_end_to_end_exact / C17_write_end_to_end_exact_* (Dm14Net.v) against the two real
+    # facades: frames of either side in order, the proceed function's arguments, both return values
+    import dm14net
+    nn, nmism, nerr = dm14net.run(work, kept, tag='c17net', limit=30 if tier == 'quick' else 300)
+    out.extra['end_to_end_model_cases'] = nn
+    out.traces_validated += nn
+    for name, o in nerr[:3]:
+        out.broken.append('end-to-end correspondence %s did not evaluate: %s' % (name, o[-200:].replace('\n', ' ')))
+    for sc, i, m, im in nmism[:3]:
+        out.broken.append('end-to-end correspondence: composed DM14 model and two real facades differ (first operation %s) at observation %s: model %s / impl %s'
+                          % (json.dumps({a: b for a, b in sc['ops'][0].items() if a not in ('server_data', 'values')})[:160], i, str(m)[:120], str(im)[:120]))
     for kind, (x, sc) in worst.items():
         out.violation('%s: %s' % (kind, json.dumps(x, default=str)[:300]), dict(kind=kind), dict(broke='oracle', scenario=sc, violation=x))
